@@ -173,3 +173,54 @@ Qed.
 Lemma name_length_pos i : 0 < i -> length (name i) = S (length (name ((i - 1) / n))).
 Proof. intro H. rewrite name_pos by assumption. rewrite app_length. cbn. lia. Qed.
 End I2C.
+
+(** ** capacity: names of length <= L are exactly the numbers 1 .. n + n^2 + ... + n^L *)
+Section Capacity.
+Variable chars : str.
+Let n := N.of_nat (length chars).
+Hypothesis n_pos : 0 < n.
+Fixpoint cap (L : nat) : N := match L with O => 0 | S L' => n * (cap L' + 1) end.
+Theorem name_length_cap : forall L i, (length (name chars i) <= L)%nat <-> i <= cap L.
+Proof.
+  induction L as [|L IH]; intro i.
+  - cbn [cap]. split.
+    + intro H. destruct (N.eq_dec i 0) as [->|Hi]; [lia|].
+      rewrite (name_length_pos chars n_pos i) in H by lia. lia.
+    + intro H. assert (i = 0) by lia. subst. cbn. lia.
+  - cbn [cap]. destruct (N.eq_dec i 0) as [->|Hi].
+    + split; intro; [lia|cbn; lia].
+    + rewrite (name_length_pos chars n_pos i) by lia.
+      specialize (IH ((i - 1) / n)). fold n in IH |- *. split.
+      * intro H. assert (H' : (length (name chars ((i - 1) / n)) <= L)%nat) by lia.
+        apply IH in H'. assert ((i - 1) < n * (cap L + 1)).
+        { pose proof (N.div_mod (i - 1) n ltac:(lia)) as DM. pose proof (N.mod_lt (i - 1) n ltac:(lia)) as ML. nia. } lia.
+      * intro H. assert (H' : (i - 1) / n <= cap L).
+        { assert ((i - 1) / n < cap L + 1); [|lia]. apply N.div_lt_upper_bound; lia. }
+        apply IH in H'. lia.
+Qed.
+End Capacity.
+Example cap26 : cap (s2l "abcdefghijklmnopqrstuvwxyz") 3 = 18278 /\ cap (s2l "abcdefghijklmnopqrstuvwxyz") 2 = 702.
+Proof. vm_compute. auto. Qed.
+
+(** justification keeps names without blanks apart *)
+Lemma rjust_inj w (a b : str) : ~ In " "%char a -> ~ In " "%char b -> rjust w a = rjust w b -> a = b.
+Proof.
+  unfold rjust. intros Ha Hb E.
+  assert (L : forall (x y : str) (p q : nat), ~ In " "%char x -> ~ In " "%char y -> (p <= q)%nat -> (spaces p ++ x = spaces q ++ y)%list -> x = y).
+  { intros x y p q Hx Hy. revert q. induction p as [|p IHp]; intros q Hpq E0.
+    - cbn in E0. destruct q as [|q]; [exact E0|]. cbn in E0. subst x. exfalso. apply Hx. left. reflexivity.
+    - destruct q as [|q]; [lia|]. cbn in E0. inversion E0. apply (IHp q); [lia|assumption]. }
+  destruct (le_lt_dec (w - length a) (w - length b)) as [H|H].
+  - exact (L a b _ _ Ha Hb H E).
+  - symmetry. apply (L b a (w - length b)%nat (w - length a)%nat Hb Ha); [lia|]. symmetry. exact E.
+Qed.
+Lemma ljust_inj (a : str) : forall w (b : str), ~ In " "%char a -> ~ In " "%char b -> ljust w a = ljust w b -> a = b.
+Proof.
+  unfold ljust. induction a as [|x a IH]; intros w b Ha Hb E.
+  - destruct b as [|y b]; [reflexivity|]. cbn in E. destruct (w - 0)%nat; [discriminate|]. cbn in E. inversion E. subst y. exfalso. apply Hb. left. reflexivity.
+  - destruct b as [|y b].
+    + cbn in E. destruct (w - 0)%nat; [discriminate|]. cbn in E. inversion E. subst x. exfalso. apply Ha. left. reflexivity.
+    + cbn [app length] in E. inversion E. subst y. f_equal. apply (IH (w - 1)%nat); [intro; apply Ha; right; assumption|intro; apply Hb; right; assumption|].
+      replace (w - 1 - length a)%nat with (w - S (length a))%nat by lia.
+      replace (w - 1 - length b)%nat with (w - S (length b))%nat by lia. assumption.
+Qed.
